@@ -3,15 +3,42 @@ CHECK = {
     "harness": "h-c20",
     "translators": [],
     "level": "proof",
-    "rule": "one evaluation = one request line answered by both the implementation and the Lean model; "
-            "distinctness by hash of the request line",
-    "explanation": "Lean theorems over executable models of the inner-product argument and of the in-circuit "
-                   "verifier schedule; models tied to the implementation by running both on the same requests",
-    "trusted_base": ["blst group arithmetic and msm_best (C11/C12) are modelled as an abstract module over the scalar field"],
-    "level_text": "Kernel-checked Lean theorems about executable models (all vector lengths 2^k, all challenges), "
-                  "with the models checked against the real entry points on every run",
-    "level_note": "partial: knowledge soundness of the IPA / of the aggregation argument (DLOG, ROM) is assumed, "
-                  "only the algebra is proved",
-    "assumptions": ["Fiat-Shamir challenges are modelled as free parameters (random-oracle heuristic)"],
-    "timeout": {"quick": 900, "thorough": 3600, "search": 900},
+    "technique": "Lean 4 theorems over executable models (inner-product argument over a commutative ring with the "
+                 "group as a module; Fiat-Shamir schedule of the in-circuit verifier against the off-circuit "
+                 "schedule model of C01; accumulator/MSM algebra), models tied to the code by structural "
+                 "correspondence; property oracles on the real code (MockProver on the verifier circuit for both "
+                 "self-emulation back-ends, LightAggregator round trips and corruptions)",
+    "rule": "one evaluation = one request line answered by both the implementation and the Lean model "
+            "(IPA schedules, proof elements, verifier MSM scalars, verdicts with recorded challenges; in-circuit "
+            "transcript event log; accumulator operations); distinctness by hash of the request line. Oracle "
+            "checks (honest accepted / altered rejected) are counted in the distribution table",
+    "explanation": "IPA: prover rounds, verifier scalar construction and verdicts are recomputed by the model from "
+                   "discrete logarithms and the recorded challenges for lengths 1..64 (1..1024 thorough), every proof "
+                   "element / base / claim altered once. In-circuit verifier: the hooked transcript log of the real "
+                   "synthesis equals gadgetSchedule (proved equal to the off-circuit verifierSchedule) on generated "
+                   "inner circuits with/without lookups, trash arguments, 0-2 committed and 0-2 plain instance "
+                   "columns, several k; MockProver accepts instance = encode(vk, public inputs, off-circuit "
+                   "accumulator) and rejects altered ones, through the light and the foreign-curve back-end. "
+                   "LightAggregator: 1, 2, 3 inner proofs, every section of the aggregated proof and every IPA "
+                   "element corrupted, inner public inputs altered",
+    "trusted_base": [
+        "blst group arithmetic and msm_best (C11/C12) are modelled as an abstract module over the scalar field",
+        "Poseidon / Blake2b / SHA-512 inside the transcripts are not modelled: challenges are parameters of the "
+        "model, taken from the real run",
+        "MockProver is the judge of satisfiability of the verifier circuits (C02 relates it to the real verifier)",
+    ],
+    "level_text": "Kernel-checked Lean theorems about executable models of the inner-product argument (all lengths "
+                  "2^k, all challenges), of the in-circuit verifier's Fiat-Shamir schedule (all supported shapes) and "
+                  "of the accumulator algebra, with the models checked against the real code on every run",
+    "level_note": "partial: knowledge soundness of the IPA and of the aggregation argument (discrete log, random "
+                  "oracle) is assumed; proved are completeness, the verifier-scalar formula, binding of every proof "
+                  "element / claim at fixed challenges, schedule equality and the accumulator algebra. The arithmetic "
+                  "the in-circuit verifier performs on evaluations (identities, Lagrange evaluations, multi-open "
+                  "folding) is covered by the MockProver equality with the off-circuit accumulator only, not by a "
+                  "Lean model",
+    "assumptions": [
+        "Fiat-Shamir challenges are free parameters of the model (random-oracle heuristic)",
+        "discrete logarithm hardness in G1 (IPA binding beyond fixed challenges)",
+    ],
+    "timeout": {"quick": 1200, "thorough": 5400, "search": 1800},
 }
